@@ -1,19 +1,63 @@
 (* C11 — decoded-source-symbol callback contract, RS part (model of the shared API layer):
    when decoding happens, the callback is invoked once for every source ESI that is still missing,
    in increasing order, never for a received symbol, never without a registered callback.
-   The LDPC-Staircase part (IT step 3, ML simplification, ML Gaussian stage as repaired) is covered
-   by the correspondence and the C-side oracle only. *)
+   LDPC-Staircase / 2D part (Events.v: the decoder models with a log of the columns for which the library
+   invokes the decoded-symbol callbacks - IT step 3, ML simplification, ML Gaussian stage; EventsProofs.v):
+   the logged versions compute exactly the states of the plain models; along any streaming session the log
+   has no repetition and lists exactly the columns that are known at the end but were not submitted while
+   unknown ("received first") - so one callback per decoded symbol, never for a received one; the finish log
+   has no repetition and lists exactly the columns that the finish made known.  The C's callback sequence
+   (kind, ESI, order) is compared with the model's log for every session with a registered callback. *)
 From Coq Require Import Arith List Bool.
-From OFV Require Import ListAux RSApi RSApiProofs.
+From OFV Require Import ListAux RSApi RSApiProofs ITModel ITProofs MLModel Events EventsProofs.
 Import ListNotations.
 
 Theorem rs_callback_events :
   forall (B : Type) (core : nat -> list (option B) -> option (list B)) (cb : bool) (mk : nat -> B -> B) (k n : nat),
   k <= n ->
-  forall (s : rs B) vals, length vals = k -> length (tab s) = n -> fin s = false ->
-  navail_src s <> rk s -> k <= navail s -> rk s = k -> core k (tab s) = Some vals ->
+  forall (s : rs B) vals, length vals = k -> length (RSApi.tab s) = n -> fin s = false ->
+  navail_src s <> rk s -> k <= navail s -> rk s = k -> core k (RSApi.tab s) = Some vals ->
   evs (fst (rs_finish core cb mk s)) =
-  evs s ++ (if cb then filter (fun j => negb (is_some (nth j (tab s) None))) (seq 0 k) else []).
+  evs s ++ (if cb then filter (fun j => negb (is_some (nth j (RSApi.tab s) None))) (seq 0 k) else []).
 Proof. exact rs_callback_events_proof. Qed.
 
+Theorem ldpc_logged_models_are_the_models :
+  forall (Sy : Type) (sxor : Sy -> Sy -> Sy) (s0 : Sy) (H0 : list (list nat)) (R0 N0 fuel : nat) (hist : list (nat * Sy)),
+  erase (run_ev sxor s0 fuel (init Sy R0 N0 H0) hist) = ITProofs.run Sy sxor s0 H0 R0 N0 fuel hist.
+Proof. exact run_ev_sim_init. Qed.
+
+Theorem ldpc_finish_logged_model_is_the_model :
+  forall (Sy : Type) (sxor : Sy -> Sy -> Sy) (s0 : Sy) (fuel : nat) (perm : list nat) (s : st Sy),
+  (forall (o : outcome Sy) (l : list nat), ml_finish_ev sxor s0 fuel perm s = Some (o, l) -> ml_finish sxor s0 fuel perm s = Some o) /\
+  (forall o : outcome Sy, ml_finish sxor s0 fuel perm s = Some o -> exists l, ml_finish_ev sxor s0 fuel perm s = Some (o, l)) /\
+  (ml_finish sxor s0 fuel perm s = None <-> ml_finish_ev sxor s0 fuel perm s = None).
+Proof. exact ml_finish_ev_sim. Qed.
+
+Theorem ldpc_streaming_one_callback_per_decoded_symbol :
+  forall (Sy : Type) (sxor : Sy -> Sy -> Sy) (s0 : Sy) (H0 : list (list nat)) (R0 N0 : nat),
+  length H0 = R0 -> (forall i, i < R0 -> NoDup (nth i H0 [])) ->
+  (forall i c, i < R0 -> In c (nth i H0 []) -> c < N0) -> (forall i, i < R0 -> 2 <= length (nth i H0 [])) -> R0 <= N0 ->
+  forall (fuel : nat) (hist : list (nat * Sy)) (sf : st Sy) (l : list nat),
+  (forall ev, In ev hist -> fst ev < N0) ->
+  run_ev sxor s0 fuel (init Sy R0 N0 H0) hist = Some (sf, l) ->
+  let fs := firsts Sy sxor s0 fuel (init Sy R0 N0 H0) hist in
+  NoDup l /\ NoDup fs /\ (forall e, ~ (In e l /\ In e fs)) /\
+  (forall e, known sf e = true -> In e l \/ In e fs) /\
+  (forall e, In e l <-> known sf e = true /\ ~ In e fs) /\
+  (forall e, In e fs -> known sf e = true /\ In e (map fst hist)).
+Proof. exact run_ev_log. Qed.
+
+Theorem ldpc_finish_one_callback_per_newly_decoded_symbol :
+  forall (Sy : Type) (sxor : Sy -> Sy -> Sy) (s0 : Sy) (H0 : list (list nat)) (R0 N0 : nat),
+  (forall i c, i < R0 -> In c (nth i H0 []) -> c < N0) ->
+  forall (fuel : nat) (perm : list nat) (s : st Sy) (o : outcome Sy) (l : list nat),
+  WF Sy R0 N0 s -> (forall i, i < R0 -> incl (nth i (rws s) []) (nth i H0 [])) ->
+  ml_finish_ev sxor s0 fuel perm s = Some (o, l) ->
+  NoDup l /\ (forall e, In e l -> known s e = false /\ known (o_st o) e = true) /\
+  (forall e, known s e = false -> known (o_st o) e = true -> In e l).
+Proof. exact ml_finish_ev_log_wf. Qed.
+
 Print Assumptions rs_callback_events.
+Print Assumptions ldpc_logged_models_are_the_models.
+Print Assumptions ldpc_streaming_one_callback_per_decoded_symbol.
+Print Assumptions ldpc_finish_one_callback_per_newly_decoded_symbol.
